@@ -17,7 +17,7 @@
      stream  : not run | chunk values | error | panic   (chunks compared as a multiset: the
                                                          fan-in merge interleaves arbitrarily)
    Error messages are never compared. *)
-From Eino Require Import Base.Util Base.FMUniverse Model.FieldMap Model.FieldMapOwn Model.FieldMapPromote.
+From Eino Require Import Base.Util Base.FMUniverse Model.FieldMap Model.FieldMapOwn Model.FieldMapPromote Model.FieldMapClean.
 
 Inductive cobs : Type := OAccept | OOverlap | OStatic | OOther.
 Inductive robs : Type := RNone | RVal (v : val) | RErr | RPanic.
@@ -215,6 +215,9 @@ Definition clauses (c : ccase) : bool :=
   match o_invoke c with
   | RVal v => get_clause (c_env c) (c_T c) (c_decls c) (c_srcs c) v && static_clause (c_env c) (c_T c) (c_statics c) v
               && zero_clause (c_env c) (c_T c) targets v
+              (* ... and exhaustively: the observed value differs from zero only along the target paths
+                 (Model/FieldMapClean.v; by clean_b_read_zero EVERY path that overlaps no target reads zero) *)
+              && clean_b 64 (c_env c) (c_T c) v targets
   | _ => true
   end &&
   match o_stream c with
@@ -271,6 +274,7 @@ Definition wf_good (c : ccase) : bool :=
                | RVal v => get_clause (c_env c) (c_T c) (c_decls c) srcs v
                            && static_clause (c_env c) (c_T c) (c_statics c) v
                            && zero_clause (c_env c) (c_T c) targets v
+                           && clean_b 64 (c_env c) (c_T c) v targets
                | _ => true
                end)) (c_more c)
       && (if has_plain (c_decls c) then negb (o_srcmod c) else
